@@ -653,3 +653,99 @@ fn mon_c08(c: &FwCase, run: &FwRun) -> Option<String> {
     }
     None
 }
+
+/// C10: a deterministic machine M (probability-1 transitions, constant
+/// distributions, no SIGNAL target) next to arbitrary neighbours that cannot
+/// signal it, and the same machine alone on the projected history.
+pub fn gen_c10_pair(r: &mut SplitMix64) -> (FwCase, FwCase, usize) {
+    let mut mp = MProfile::mixed();
+    mp.prob = ProbMode::One;
+    mp.dist = DistMode::Const;
+    mp.signals = 0;
+    mp.counters = 40;
+    mp.limits = 50;
+    mp.trans_density = 55;
+    mp.fracs = true;
+    mp.budgets = true;
+    let m = gen_machine(r, &mp);
+    // neighbours: anything, but if M reacts to Signal they must not be able to signal
+    let m_reacts_to_signal = m.states.iter().any(|s| !s.get_transitions()[maybenot::event::Event::Signal].is_empty());
+    let mut np = MProfile::mixed();
+    if m_reacts_to_signal {
+        np.signals = 0;
+    }
+    let total = r.range(1, 4) as usize;
+    let pos = r.below(total as u64) as usize;
+    let mut machines = vec![];
+    for k in 0..total {
+        if k == pos {
+            machines.push(m.clone());
+        } else {
+            machines.push(gen_machine(r, &np));
+        }
+    }
+    let mut hp = HProfile::mixed();
+    hp.max_calls = 10;
+    hp.max_events = 3;
+    let (t0, calls) = gen_history(r, total, &hp);
+    let foreign = usize::MAX;
+    let project = |e: &maybenot::TriggerEvent| -> maybenot::TriggerEvent {
+        use maybenot::{MachineId, TriggerEvent::*};
+        let map = |id: &MachineId| {
+            if id.into_raw() == pos {
+                MachineId::from_raw(0)
+            } else {
+                MachineId::from_raw(foreign)
+            }
+        };
+        match e {
+            PaddingSent { machine } => PaddingSent { machine: map(machine) },
+            BlockingBegin { machine } => BlockingBegin { machine: map(machine) },
+            TimerBegin { machine } => TimerBegin { machine: map(machine) },
+            TimerEnd { machine } => TimerEnd { machine: map(machine) },
+            other => other.clone(),
+        }
+    };
+    let solo_calls = calls.iter().map(|(t, evs)| (*t, evs.iter().map(project).collect())).collect();
+    let combined = FwCase { machines, fpad: 0.0, fblk: 0.0, t0, calls, script: vec![], seed: r.next() };
+    let solo = FwCase { machines: vec![m], fpad: 0.0, fblk: 0.0, t0, calls: solo_calls, script: vec![], seed: r.next() };
+    (combined, solo, pos)
+}
+
+pub fn mon_c10(comb: &FwRun, solo: &FwRun, pos: usize) -> Option<String> {
+    if comb.panic.is_some() || solo.panic.is_some() {
+        return Some("panic".to_string());
+    }
+    for (j, (a, b)) in comb.calls.iter().zip(solo.calls.iter()).enumerate() {
+        let mine: Vec<Vec<u64>> = a
+            .actions
+            .iter()
+            .filter_map(|x| {
+                let mut t = vec![];
+                crate::enc::out_action(x, &mut t);
+                if t[1] == pos as u64 {
+                    t[1] = 0;
+                    Some(t)
+                } else {
+                    None
+                }
+            })
+            .collect();
+        let alone: Vec<Vec<u64>> = b
+            .actions
+            .iter()
+            .map(|x| {
+                let mut t = vec![];
+                crate::enc::out_action(x, &mut t);
+                t
+            })
+            .collect();
+        if mine != alone {
+            return Some(format!(
+                "call {}: machine at position {} acts {:?} next to its neighbours but {:?} alone on the projected history",
+                j, pos, mine, alone
+            ));
+        }
+    }
+    None
+}
